@@ -78,36 +78,53 @@ func solveVC(vc *VC, cfg solveCfg) {
 	if vc.spec != nil && vc.spec.Standalone {
 		pending = vc.obligs
 	} else {
-		inc := base + ".inc.smt2"
-		os.WriteFile(inc, []byte(vc.incrementalScript(cfg.incTimeoutMs)), 0o644)
-		t0 := time.Now()
-		ctx, cancel := context.WithTimeout(context.Background(), time.Duration(cfg.incTimeoutMs*len(vc.obligs)+20000)*time.Millisecond)
-		out, _ := runCmd(ctx, []string{"z3-new", inc})
-		cancel()
-		el := time.Since(t0).Seconds()
-		ans := answers(out)
-		errs := 0
-		for _, a := range ans {
-			if strings.HasPrefix(a, "error") {
-				errs++
+		var main, covers []*Oblig
+		for _, ob := range vc.obligs {
+			if ob.IsCover {
+				covers = append(covers, ob)
+			} else {
+				main = append(main, ob)
 			}
 		}
-		if errs > 0 || len(ans) != len(vc.obligs) {
-			// script problem: report every obligation as undecided with the error text
-			msg := firstError(out)
-			for _, ob := range vc.obligs {
-				ob.Status = "undecided"
-				ob.Output = "incremental script failed: " + msg
+		runInc := func(file, script string, obs []*Oblig, label string) bool {
+			if len(obs) == 0 {
+				return true
 			}
-			pending = vc.obligs
-			if errs > 0 {
-				vc.unsupportedf("SMT script error: %s", msg)
-				return
+			os.WriteFile(file, []byte(script), 0o644)
+			t0 := time.Now()
+			ctx, cancel := context.WithTimeout(context.Background(), time.Duration(cfg.incTimeoutMs*len(obs)+20000)*time.Millisecond)
+			out, _ := runCmd(ctx, []string{"z3-new", file})
+			cancel()
+			if !cfg.keep {
+				os.Remove(file)
 			}
-		} else {
-			per := el / float64(len(vc.obligs))
-			for i, ob := range vc.obligs {
-				ob.Solver = "z3-new(incremental)"
+			el := time.Since(t0).Seconds()
+			ans := answers(out)
+			errs := 0
+			for _, a := range ans {
+				if strings.HasPrefix(a, "error") {
+					errs++
+				}
+			}
+			if errs > 0 || len(ans) != len(obs) {
+				msg := firstError(out)
+				for _, ob := range obs {
+					ob.Status = "undecided"
+					if ob.IsCover {
+						ob.Status = "unknown"
+					}
+					ob.Output = "incremental script failed: " + msg
+				}
+				pending = append(pending, obs...)
+				if errs > 0 {
+					vc.unsupportedf("SMT script error: %s", msg)
+					return false
+				}
+				return true
+			}
+			per := el / float64(len(obs))
+			for i, ob := range obs {
+				ob.Solver = label
 				ob.Seconds = per
 				want := "unsat"
 				if ob.IsCover {
@@ -116,8 +133,9 @@ func solveVC(vc *VC, cfg solveCfg) {
 				switch {
 				case ans[i] == want:
 					ob.Status = "proved"
-				case ob.IsCover && ans[i] == "unknown":
-					ob.Status = "unknown" // reachability not refuted; not counted as reachable
+				case ob.IsCover:
+					ob.Status = "unknown" // reachability not established here; raced below
+					ob.Output = ans[i]
 					pending = append(pending, ob)
 				default:
 					ob.Status = "undecided"
@@ -125,9 +143,13 @@ func solveVC(vc *VC, cfg solveCfg) {
 					pending = append(pending, ob)
 				}
 			}
+			return true
 		}
-		if !cfg.keep {
-			os.Remove(inc)
+		if !runInc(base+".inc.smt2", vc.incrementalScript(cfg.incTimeoutMs), main, "z3-new(incremental)") {
+			return
+		}
+		if !runInc(base+".cov.smt2", vc.coverScript(cfg.incTimeoutMs), covers, "z3-new(incremental, ground facts)") {
+			return
 		}
 	}
 	// race the rest
